@@ -4,7 +4,7 @@ import random
 from hypothesis import strategies as st
 
 from vlib.core import SubCheck, Violation, Outcome
-from vlib import tt, cli, catalog
+from vlib import tt, cli, catalog, argv_gen
 
 PROPERTY = "C08"
 ASSUMPTIONS = [
@@ -89,6 +89,38 @@ def run_lib(case):
     return Outcome(labels=labels + [f.name, 'lib'], nontrivial='clausal-only' not in labels)
 
 
+def run_cli_random(case):
+    """command lines whose graph arguments and/or formulas are random: both tools under the same --seed"""
+    from cnfgen.clitools.cmdline import CLIError
+    args = ['--seed', str(case['seed'])] + case['cmd']
+    res = []
+    for i, tool in enumerate(('cnfgen', 'pbgen')):
+        random.seed(case['pre'] + i)          # the state before the run must not matter
+        try:
+            res.append(cli.build(tool, args))
+        except CLIError as e:
+            res.append(e)
+    what = "cnfgen/pbgen {}".format(' '.join(args))
+    if isinstance(res[0], CLIError) or isinstance(res[1], CLIError):
+        if isinstance(res[0], CLIError) and isinstance(res[1], CLIError):
+            return Outcome(rejected=True, nontrivial=False, labels=['both-rejected'])
+        raise Violation("{}: one tool rejects the command line, the other builds a formula: {}".format(what, [str(r)[:80] for r in res]))
+    labels = compare(res[0], res[1], what)
+    if labels is None:
+        return Outcome(nontrivial=False, labels=['too-large'])
+    return Outcome(labels=labels + [case['cmd'][0], case['kind']], nontrivial=len(res[0]) >= 2)
+
+
+@st.composite
+def strat_cli_random(draw):
+    kind = draw(st.sampled_from(['random-graph', 'random-graph', 'random-family']))
+    if kind == 'random-graph':
+        cmd = draw(argv_gen.graph_command(random_ok=True, det_ok=False))
+    else:
+        cmd = draw(argv_gen.numeric_random_command())
+    return {'cmd': cmd, 'kind': kind, 'seed': draw(st.sampled_from([0, 1, 2, 7]) | st.integers(0, 10 ** 6)), 'pre': draw(st.integers(0, 50))}
+
+
 @st.composite
 def strat_cli(draw):
     inv = draw(catalog.invocations())
@@ -112,6 +144,9 @@ SUBCHECKS = [
     SubCheck('cli', run_cli, strategy=strat_cli, quick=900, thorough=40000,
              rule="every formula sub-command of the catalogue (33 helpers shared by both tools, every option) with parameters giving <=22 variables, graph arguments as harness-written files, random sub-commands under one --seed; cnfgen vs pbgen built in-process (mode='formula'); oracle: pbgen yields a pseudo-Boolean object, same variable count, same names in order, identical complete truth tables; non-trivial: the OPB side has a non-clausal constraint",
              required_labels=[n for n in NAMES] + ['native-cardinality', 'native-equality', 'clausal-only', 'random-family']),
+    SubCheck('cli_random', run_cli_random, strategy=strat_cli_random, quick=700, thorough=30000,
+             rule="sub-commands with random graph constructions and modifiers (gnp, gnm, gnd, glrp, glrm, glrd, regular, plantclique, plantbiclique, addedges, splitedges) and sub-commands that draw random numbers while building (tseitin random*, php M N D, op N d, subsetcard N d, stone --sparse, randkcnf, randkxor, pitfall), each run by cnfgen and pbgen with the same --seed from different states of the global generator; same oracle (<=22 variables compared completely); non-trivial: >=2 rows",
+             required_labels=['random-graph', 'random-family', 'tseitin', 'php', 'kcolor']),
     SubCheck('lib', run_lib, strategy=strat_lib, quick=600, thorough=30000,
              rule="every deterministic family of the catalogue through the library with formula_class=CNF and =OPB; same oracle",
              required_labels=['native-cardinality', 'native-equality']),
